@@ -97,7 +97,7 @@ def selection_mc(ctx):
 def run(ctx):
     rnd = random.Random(ctx.seed + 202)
     selection_mc(ctx)
-    n = 400 if ctx.quick else 8000
+    n = 400 if ctx.quick else 2500
     scens = [exact_history(rnd, "x%d" % i, ["global", "global", "global", "sequence", "fourier"]) for i in range(n)]
     gl.run_grid(ctx, [("exact", scens)], gl.OBS_EXACT, "C02")
     ctx.assume("the combination technique is exact on the union of the tensor boxes when every one dimensional rule is exact as tabulated (classical theorem); the spec derives the declared space from its tensors and TLC requires it to equal getGlobalPolynomialSpace(false)")
